@@ -111,6 +111,7 @@ typedef struct vf_world {
     uint32_t  trace_used;
     vf_trec   trace[VF_TRACE_MAX];
     uint32_t  trace_overflow;
+    uint32_t  sends_total;     /* send calls in this transition, counted even when the trace is full */
     uint32_t  cur_request;
     int       in_tick;        /* set by drivers while automata_tick runs */
 } vf_world;
@@ -182,6 +183,8 @@ void vf_harness_error(const char *fmt, ...) __attribute__((format(printf, 1, 2),
 typedef struct vf_path { int n; int ev[4096]; } vf_path;
 extern void (*vf_cex_writer)(FILE *f);     /* set by the engine: writes "events":[...] etc. */
 int  vf_nviolations(void);
+extern uint64_t vf_violation_events; extern double vf_first_violation_t;
+#define VF_GRACE_AFTER_VIOLATION_S 15.0   /* engines stop this long after the first violation (reported as a cap) */
 void vf_outcome(uint64_t h);               /* register a distinct observed outcome */
 uint64_t vf_hash64(const void *p, size_t n, uint64_t seed);
 
@@ -224,12 +227,13 @@ typedef struct e1_cfg {
     int    max_depth;                      /* 0 = unbounded */
     uint64_t max_states;
     double deadline_s;
+    int    prune_on_violation;             /* do not expand the successor of a violating transition */
     int    record_outhash;                 /* keep per-transition output hashes */
     const uint64_t *compare_outhash; uint64_t compare_n;   /* second run: outputs must equal the first run's */
 } e1_cfg;
 typedef struct e1_stats {
     uint64_t states, transitions; int max_depth; int fixpoint; const char *cap;
-    uint64_t out_hash; uint64_t selfcheck_replays;
+    uint64_t out_hash; uint64_t selfcheck_replays; uint64_t pruned;
 } e1_stats;
 void e1_run(const e1_cfg *c, e1_stats *st);
 int  e1_replay_file(const e1_cfg *c, const char *path);   /* replays twice, prints observations */
